@@ -21,6 +21,8 @@ rev 2000096 F3 C06
 rev 4c5f61c F6 C14 C04
 rev 733a97d F7 C05
 rev 9ede639 F10 C15
+rev 9293df1 F11 C15
+rev a808ea3 F12 C15
 for d in /verif/seeded/*/; do
   id=$(basename $d)
   props=$(python3 -c "import json;print(' '.join(json.load(open('$d/meta.json')).get('caught_by') or []))")
